@@ -19,6 +19,7 @@ RULE = (
     "the prefix combines bar/blank/cont/end segments of both kinds, or, for text cases, a multi-line value on a row at depth >= 1. Enumerated distinct by construction, generated hashed."
     " Also: nodes with 300-1500 children; the style object's glyph attributes changed between two renderings."
     ' Also: overlapping iterations of one RenderTree object; range/deque values.'
+    ' Also: maxlevels that are not whole numbers (literal reading).'
 )
 ASSUMPTIONS = [
     "'lines' of a value are separated by '\\n' only and values have no trailing newline (the statement does not say which line-break characters count; str.splitlines and split('\\n') differ only there) - such values are not generated",
